@@ -34,7 +34,7 @@ def run_specs(mod, scope=None, only=None):
             sel = [sp for sp in specs if sp.qualname in only]
             # a canary inside an inlined helper has no spec of its own: re-run everything
             inl = [sp for sp in specs if any(o in getattr(sp, "inline", ()) for o in only)]
-            specs = (sel + [sp for sp in inl if sp not in sel]) or specs
+            specs = sel or inl or specs
         obs, info, undecided, covers = [], [], [], []
         for sp in specs:
             t0 = time.time()
